@@ -528,6 +528,94 @@ Definition history_ok (c : rcase) (h : list hev) : bool :=
   (* the controller's End begins after everything else has returned *)
   Nat.eqb (pb h (List.length (rc_threads c), O)) (List.length h - 4).
 
+(* ================================================================== MRACE: several spans ended concurrently on the same processors
+   case  :=  MRACE {S|Q}+ | T | ST x<name> <kind> <start_system> <start_steady> {; attr}* {| op}* | T | ST ... | s <tid> <flag>...
+             thread i owns span i (started by the controller before the threads run): its operations go to that span only and contain
+             an END; explicit time stamps only.  Each span is used by one thread, so what every processor must receive for it is the
+             export of the sequential machine on that thread's operations - whatever the interleaving of the threads.
+   observation:  M <null entries handed to an exporter> <recordables that changed while an exporter held them>
+                   {# slot {& slot}*}*      one # section per processor, one slot per thread: the spans received for that thread's span *)
+Record mthread := mk_mthread { mt_start : start aval; mt_ops : list (op aval) }.
+Record mcase := mk_mcase { mc_cfg : cfg aval; mc_threads : list mthread }.
+
+Definition parse_mthread (g : list (list tok)) : option mthread :=
+  match g with
+  | st :: opsecs =>
+      match with_attrs st, parse_all parse_op opsecs with
+      | Some ([tst; TB name; TZ kind; TZ sys; TZ steady], sa), Some ops =>
+          if is_tag "ST" tst && (0 <=? kind) && (kind <=? 4) && ts_ok sys && ts_ok steady && negb (sys =? 0) && negb (steady =? 0) &&
+             forallb race_op_ok ops && existsb is_end ops
+          then Some (mk_mthread (mk_start name kind sys steady sa []) ops) else None
+      | _, _ => None
+      end
+  | [] => None
+  end.
+Fixpoint parse_mthreads (gs : list (list (list tok))) : option (list mthread) :=
+  match gs with
+  | [] => Some []
+  | g :: r => match parse_mthread g, parse_mthreads r with
+              | Some t, Some r' => Some (t :: r')
+              | _, _ => None
+              end
+  end.
+Definition parse_mcase (l : list tok) : option mcase :=
+  match split_toks "|" l with
+  | (tr :: kinds) :: rest =>
+      if is_tag "MRACE" tr && Nat.leb 1 (List.length kinds) && Nat.leb (List.length kinds) 4 then
+        match parse_rkinds kinds, split_secs "T" (filter (fun s => negb (is_sched_sec s)) rest) with
+        | Some ks, [] :: groups =>
+            match parse_mthreads groups with
+            | Some ths => if Nat.leb 1 (List.length ths) && Nat.leb (List.length ths) 4
+                          then Some (mk_mcase (mk_cfg ks true (bs "l", [], []) []) ths) else None
+            | None => None
+            end
+        | _, _ => None
+        end
+      else None
+  | _ => None
+  end.
+
+Definition mthread_world (c : cfg aval) (t : mthread) : world :=
+  run1 (map_cfg conv c) (map_start conv (mt_start t)) (map (map_op conv) (mt_ops t)).
+Fixpoint join_amp (l : list (list tok)) : list tok :=
+  match l with
+  | [] => []
+  | [x] => x
+  | x :: r => (x ++ tag "&" :: join_amp r)%list
+  end.
+Fixpoint nat_seq (n : nat) : list nat := match n with O => [] | S k => (nat_seq k ++ [k])%list end.
+Definition mrace_model (mc : mcase) : list tok :=
+  let ws := map (mthread_world (mc_cfg mc)) (mc_threads mc) in
+  tag "M" :: TZ 0 :: TZ 0 ::
+  flat_map (fun p => tag "#" :: join_amp (map (fun w => print_spans (nth p (w_got w) [])) ws)) (nat_seq (List.length (c_procs (mc_cfg mc)))).
+
+Fixpoint slots_check (c : cfg aval) (ths : list mthread) (slots : list (list sdata)) : list tok :=
+  match ths, slots with
+  | [], [] => []
+  | t :: ths', sl :: slots' =>
+      match sl with
+      | [d] => span_check c (mt_start t) (mt_ops t) d
+      | [] => fail "mrace_once:span_not_exported"
+      | _ => fail "mrace_once:span_exported_more_than_once"
+      end ++ slots_check c ths' slots'
+  | _, _ => fail "mrace:slot_count"
+  end.
+Definition mrace_check (mc : mcase) (nulls changed : Z) (procs : list (list (list sdata))) : list tok :=
+  check (nulls =? 0) "mrace:null_entry_handed_to_exporter" ++
+  check (changed =? 0) "mrace:recordable_changed_while_exporter_held_it" ++
+  check (Nat.eqb (List.length procs) (List.length (c_procs (mc_cfg mc)))) "mrace_fanout:processor_count" ++
+  flat_map (slots_check (mc_cfg mc) (mc_threads mc)) procs.
+
+Definition parse_mobs (l : list tok) : option (Z * Z * list (list (list sdata))) :=
+  match split_toks "#" l with
+  | [tm; TZ a; TZ b] :: procs =>
+      if is_tag "M" tm then
+        option_map (fun ps => (a, b, ps)) (parse_all (fun sec => parse_all parse_proc (split_toks "&" sec)) procs)
+      else None
+  | _ => None
+  end.
+Definition is_mrace (l : list tok) : bool := match l with t :: _ => is_tag "MRACE" t | [] => false end.
+
 Definition is_srace (l : list tok) : bool := match l with t :: _ => is_tag "SRACE" t | [] => false end.
 
 (* the trace as a trace of the lock-granularity machine (Lts.v): B carries the operation the thread's script has at that index *)
@@ -581,6 +669,7 @@ Definition run_model (l : list tok) : list tok :=
                  end
     | None => bad_case
     end
+  else if is_mrace c then match parse_mcase c with Some mc => mrace_model mc | None => bad_case end
   else run_model_seq c.
 
 Definition run_tag (l : list tok) : list tok :=
@@ -588,6 +677,11 @@ Definition run_tag (l : list tok) : list tok :=
   if is_srace c then
     match parse_rcase c with
     | Some rc => [tag ("srace_p" ++ nat_tag (List.length (c_procs (rc_cfg rc))) ++ "_t" ++ nat_tag (List.length (rc_threads rc)))]
+    | None => bad_case
+    end
+  else if is_mrace c then
+    match parse_mcase c with
+    | Some mc => [tag ("mrace_p" ++ nat_tag (List.length (c_procs (mc_cfg mc))) ++ "_t" ++ nat_tag (List.length (mc_threads mc)))]
     | None => bad_case
     end
   else run_tag_seq c.
@@ -603,6 +697,14 @@ Definition run_spec (l obs : list tok) : list tok :=
             race_check (rc_cfg rc) (rc_start rc) (race_threads rc) (hist_of evs) got
         | _, _ => fail "srace:run_did_not_finish"
         end
+    | None => bad_case
+    end
+  else if is_mrace c then
+    match parse_mcase c with
+    | Some mc => match parse_mobs obs with
+                 | Some (a, b, procs) => mrace_check mc a b procs
+                 | None => fail "obs:unparsable"
+                 end
     | None => bad_case
     end
   else run_spec_seq c obs.
